@@ -384,7 +384,7 @@ impl Hypercore {
     sub `infos\.extend\(self\.storage\.read_infos_to_vec\(&instructions\)\?\);` => `vp_extend(&mut infos, self.storage.read_infos_to_vec(&instructions)?);`
     loop 1:
         invariant
-            !self.storage.failed@,
+            !self.storage.failed@, tree_instr(instructions@),
             self.same_view(old(self)), self.bitfield == old(self).bitfield, self.tree == old(self).tree,
             self.oplog == old(self).oplog, self.skip_flush_count == old(self).skip_flush_count,
             self.storage.journal@ == old(self).storage.journal@
@@ -570,7 +570,7 @@ impl Hypercore {
     sub `infos\.extend\(self\.storage\.read_infos_to_vec\(&instructions\)\?\);` => `vp_extend(&mut infos, self.storage.read_infos_to_vec(&instructions)?);`
     loop 1:
         invariant
-            !self.storage.failed@,
+            !self.storage.failed@, tree_instr(instructions@),
             self.same_view(old(self)), self.bitfield == old(self).bitfield, self.tree == old(self).tree,
             self.oplog == old(self).oplog, self.skip_flush_count == old(self).skip_flush_count,
             self.storage.journal@ == old(self).storage.journal@
@@ -604,7 +604,7 @@ impl Hypercore {
     sub `infos\.extend\(self\.storage\.read_infos_to_vec\(&instructions\)\?\);` => `vp_extend(&mut infos, self.storage.read_infos_to_vec(&instructions)?);`
     loop 1:
         invariant
-            !self.storage.failed@,
+            !self.storage.failed@, tree_instr(instructions@),
             self.same_view(old(self)), self.bitfield == old(self).bitfield, self.tree == old(self).tree,
             self.storage.journal@ == old(self).storage.journal@
     @*/
